@@ -117,7 +117,13 @@ def run_case(i, tier, seed):
     nmax = max(im["lines"] for im in info["images"].values())
     rpc_w = rng.choice(harness.rpc_candidates(nmax, rng))
     rpc_r = rng.choice(harness.rpc_candidates(nmax, rng))
-    root = harness.unique_root(kind)
+    # odd directory names only where no CLI run is involved: the tool turns the directory into a URI (pathlib.as_uri), which
+    # percent-encodes such characters, and then cannot find its own input -- no cache is produced, so C07's premise is not met
+    # (recorded in DESIGN.md as an observation, not a violation of a listed property)
+    cli_involved = producer.startswith("cli") or location == "both"
+    root = harness.unique_root(kind, rng=None if cli_involved else rng, p_odd=0.5)
+    if root[-1] == "x" and not root[-2].isalnum():
+        obs["odd_directory_names"] = 1
     url = synth.install(files, root, kind)
     local_root = root if local else None
     linked = local and producer.startswith("cli") and rng.random() < 0.35
@@ -185,6 +191,20 @@ def run_case(i, tier, seed):
                                        "detail": dict(detail, diff=d[:5])})
             except Exception as e:
                 violations.append({"what": f"loading values of the cached tree raised: {harness.exc_sig(e)}", "detail": detail})
+        # --- a second cached open in the same process with another request size: it must honour *its* records_per_chunk
+        others = [r for r in harness.rpc_candidates(nmax, rng) if min(r, nmax) != min(rpc_r, nmax)]
+        if others:
+            rpc_2 = rng.choice(others)
+            try:
+                ref2 = canon.canon(harness.open_tree(url, use_cache=False, records_per_chunk=rpc_2))
+                got2 = canon.canon(harness.open_tree(url, use_cache=True, records_per_chunk=rpc_2))
+                obs["second_cached_opens"] = obs.get("second_cached_opens", 0) + 1
+                d = canon.diff(ref2, got2)
+                if d:
+                    violations.append({"what": f"second cached open (records_per_chunk={rpc_2} after {rpc_r}) differs from the uncached tree at {len(d)} leaves, first: {d[0]}",
+                                       "detail": dict(detail, rpc_second=rpc_2, diff=d[:5])})
+            except Exception as e:
+                violations.append({"what": f"second cached open (records_per_chunk={rpc_2} after {rpc_r}) raised: {harness.exc_sig(e)}", "detail": detail})
         # --- poison: a valid index describing other data at every location; use_cache=False must ignore it
         other_files, other_info = gen.rich_product(random.Random(f"poison-{seed}-{i}"), [seed, i, 99], level=level,
                                                    n_images=len(set(n.split('-')[1] for n in imgs)), max_lines=9, max_pixels=5,
